@@ -86,6 +86,10 @@ def canaries(tier):
          'patches': [(B, '                        step_size = self.dt_min\n                        prev_error_ratio = None', '                        prev_error_ratio = None')]},
         {'name': 'never-shrink', 'job': 'controller',
          'patches': [('torchsde._core.adaptive_stepping', '        ifactor = 1 / 1.5  # 1 / 5', '        ifactor = 0  # 1 / 5')]},
+        {'name': 'tolerances-swapped-at-the-call-site', 'job': 'integrate-adaptive-inlined',
+         'patches': [(B, 'adaptive_stepping.compute_error(next_y_full, next_y, self.rtol, self.atol)', 'adaptive_stepping.compute_error(next_y_full, next_y, self.atol, self.rtol)')]},
+        {'name': 'error-of-first-half-step-only', 'job': 'integrate-adaptive',
+         'patches': [(B, 'adaptive_stepping.compute_error(next_y_full, next_y, self.rtol, self.atol)', 'adaptive_stepping.compute_error(next_y_full, midpoint_y, self.rtol, self.atol)')]},
         {'name': 'rms-not-clamped', 'job': 'compute_error',
          'patches': [('torchsde._core.adaptive_stepping', "return torch.sqrt(sum((x_ ** 2.).sum() for x_ in x) / sum(x_.numel() for x_ in x)).clamp_min(eps)", "return torch.sqrt(sum((x_ ** 2.).sum() for x_ in x) / sum(x_.numel() for x_ in x))")]},
         {'name': 'stale-extra-on-reject', 'job': 'integrate-adaptive',
